@@ -899,9 +899,7 @@ def _run(res, tier, seed, proofs_ok):
 
     bad_corpus = []
     for name, text, args, expected in CORPUS:
-        with warnings.catch_warnings():
-            warnings.simplefilter('ignore')
-            conv = impl.convert(text, args, keep_stdout=False)
+        conv = convert_watchdog(text, args)
         got = None if conv.ok else G.err_of(conv.exc, conv.msg)
         res.seen(('corpus', name))
         res.count('corpus:' + name + ':' + (got or 'ok'))
